@@ -76,6 +76,8 @@ def line_events(it, o, n0, sentence_names):
 
 def run(chk):
     w = C.world_for(chk)
+    from . import ctors as _acc
+    _acc.accessors(chk, w, only=["vaporetto::sentence::"])
     # the normalising mode copies boundaries and tags between the normalised and the original sentence position by position:
     # it relies on the normaliser mapping every character to exactly one character (shared with C16)
     from . import c16 as _c16
